@@ -41,6 +41,7 @@ class StdioCase:
         self.steps = []
         self.disabled = disabled or []    # diagnostic codes the config disables (model side)
         self.pyproject = pyproject
+        self.exclude = []                 # compilable exclude globs of the configuration (model side)
         self.meta = {}
 
     def open(self, path, text=None):
@@ -208,6 +209,12 @@ def play(case, base, timeout=15.0):
                     c.close(st[1])
                 else:
                     answers.append(ask(c, st[1], st[2:]))
+            except lsp.NoPublish as e:
+                # nothing was published for this notification; the server may still be fine. What
+                # counts is what the client last received for the document
+                answers.append("NO-PUBLISH " + diag_str(c.diagnostics.get(c.uri(st[1]), [])))
+                case.meta["no_publish"] = str(e)
+                c.diag_timeout = 1.5
             except lsp.ServerDied as e:
                 dead = "DIED"
                 answers.append("DIED")
@@ -238,8 +245,8 @@ def to_model_lines(case, cases):
     for p, t in case.files.items():
         cases.raw("disk %s %s" % (p, declare(t)))
     if case.scan_first:
-        cases.op("scan")
-    dis = ",".join(case.disabled) if case.disabled else "-"
+        cases.op("scan", *[hx(g) for g in case.exclude])
+    dis = ",".join("x" + hx(c) for c in case.disabled) if case.disabled else "-"
     for st in case.steps:
         if st[0] in ("open", "change"):
             cases.op("analyze", st[1], declare(st[2]))
@@ -251,7 +258,7 @@ def to_model_lines(case, cases):
     return keys
 
 
-def run_all(run, stdio_cases, tag="stdio"):
+def run_all(run, stdio_cases, tag="stdio", workers=1):
     """-> list of (case, step_index, step, impl_answer, model_answer)"""
     base = "/dev/shm/plsv-lsp-%d" % os.getpid()
     cases = core.Cases()
@@ -265,8 +272,14 @@ def run_all(run, stdio_cases, tag="stdio"):
     os.remove(path)
     ma, sp = core.parse_answers(out)
     results = []
+    played = {}
+    if workers > 1:
+        from concurrent.futures import ThreadPoolExecutor
+        with ThreadPoolExecutor(max_workers=workers) as ex:
+            for sc, impl in zip(stdio_cases, ex.map(lambda c: play(c, base), stdio_cases)):
+                played[sc.name] = impl
     for sc in stdio_cases:
-        impl = play(sc, base)
+        impl = played[sc.name] if sc.name in played else play(sc, base)
         keys = keymap[sc.name]
         answering = [s for s in sc.steps if s[0] in ("open", "change", "req")]
         for i, k in enumerate(keys):
@@ -280,4 +293,6 @@ def run_all(run, stdio_cases, tag="stdio"):
 def agree(a, m):
     if m == "PANIC" and a in ("DIED",):
         return True
+    if a.startswith("NO-PUBLISH "):
+        a = a[len("NO-PUBLISH "):]
     return core.agree(a, m)
